@@ -29,6 +29,8 @@
 (* Move: [on, start, sdn (this step is the first shutdown-profile step),   *)
 (*        p (output)].                                                     *)
 (* c.rf = <<a, b>>: frequency of the profiles (see Conv below).            *)
+(* c.ramp: ordinary ramp limit per step (-1: none), c.last0: virtual       *)
+(* output before the horizon of a plant declared running.                  *)
 (***************************************************************************)
 EXTENDS Integers, Sequences, FiniteSets, TLC, Json
 
@@ -109,18 +111,28 @@ StepR(c, s, x, m) ==
       b     == IF instart THEN c.sr[js + 1] ELSE IF indown THEN c.dr[dunow] ELSE <<c.lo, c.hi>>
       bh    == IF instart THEN c.srh[js + 1] ELSE IF indown THEN c.drh[dunow] ELSE <<0, c.hi>>      \* bounds of the heat
       v     == m.p + m.h                                                                           \* virtual output
+      \* ordinary ramp limit (c.ramp, -1: none) on the virtual output, "except during time steps that belong to the start or shutdown ramp"
+      \* -- read as the implementation does: a rise INTO a start-profile step is free (the rise from the last profile step to normal
+      \* operation is not); a fall is free into the switch-off step and into the profile steps before it EXCEPT the first one (the fall
+      \* from normal operation into the shutdown profile is limited) -- the mirror image of the start side
+      freedown == (~m.on /\ Rd(c) >= 1) \/ (m.on /\ dunow > 0 /\ dunow <= Rd(c) - 1)
+      rmp   == IF c.ramp < 0 THEN ""
+               ELSE IF m.on /\ ~instart /\ v - x.last > c.ramp THEN "ramp_up"
+               ELSE IF x.on /\ ~freedown /\ x.last - v > c.ramp THEN "ramp_down"
+               ELSE ""
       outp  == IF ~m.on THEN (IF m.p = 0 /\ m.h = 0 THEN "" ELSE "off_output")
                ELSE IF m.p < 0 \/ m.h < 0 THEN "negative_output"
                ELSE IF v < b[1] \/ v > b[2] THEN (IF instart THEN "start_profile" ELSE IF indown THEN "shutdown_profile" ELSE "cap")
                ELSE IF c.heat /\ (m.h < bh[1] \/ m.h > bh[2]) THEN (IF instart THEN "start_profile_heat" ELSE IF indown THEN "shutdown_profile_heat" ELSE "cap_heat")
                ELSE IF c.heat /\ m.h > m.p THEN "heat_share"
                ELSE ""
-      bads  == SelectSeq(<<auto, flag, outp>>, LAMBDA z : z # "")
+      bads  == SelectSeq(<<auto, flag, outp, rmp>>, LAMBDA z : z # "")
   IN [bad |-> IF bads = <<>> THEN "" ELSE bads[1],
       st  |-> [on  |-> m.on,
                dur |-> IF m.on = x.on THEN (IF x.dur >= BIG THEN BIG ELSE x.dur + 1) ELSE 1,
                ss  |-> IF ~m.on THEN 0 ELSE js + 1,
-               du  |-> IF ~m.on THEN 0 ELSE IF dunow > 1 THEN dunow - 1 ELSE IF dunow = 1 THEN -1 ELSE 0],
+               du  |-> IF ~m.on THEN 0 ELSE IF dunow > 1 THEN dunow - 1 ELSE IF dunow = 1 THEN -1 ELSE 0,
+               last |-> IF m.on THEN v ELSE 0],
       cost |-> c.price[s] * (m.p + m.h) + (IF m.start THEN c.startcost ELSE 0)]
 
 Cand(lo, hi, q, w) == { z \in (lo - w)..(hi + w) : z = lo \/ z = hi \/ z % q = 0 \/ z = lo - w \/ z = hi + w }
@@ -139,8 +151,8 @@ Init == /\ \E c0 \in Configs : cfg = Converted(c0)
         \* a plant declared running may already be anywhere in its shutdown profile (the profile is cut at the border of the
         \* horizon: its steps before the horizon are not constrained), as far as its declared run time allows
         /\ \E du0 \in InitDu(cfg) :
-             st = IF cfg.run0 > 0 THEN [on |-> TRUE, dur |-> cfg.run0, ss |-> cfg.run0, du |-> du0]
-                  ELSE [on |-> FALSE, dur |-> IF cfg.off0 > 0 THEN cfg.off0 ELSE BIG, ss |-> 0, du |-> 0]
+             st = IF cfg.run0 > 0 THEN [on |-> TRUE, dur |-> cfg.run0, ss |-> cfg.run0, du |-> du0, last |-> cfg.last0]
+                  ELSE [on |-> FALSE, dur |-> IF cfg.off0 > 0 THEN cfg.off0 ELSE BIG, ss |-> 0, du |-> 0, last |-> 0]
 Step == /\ t <= cfg.T /\ fault = ""
         /\ \E w \in (IF Relax = {} THEN {0} ELSE {0, 1}) : \E m \in Moves(w) :
              LET r == StepR(cfg, t, st, m) IN
@@ -166,6 +178,12 @@ ProfilesFollowed == (fault = "") => \A e \in 1..Len(hist) : hist[e].on =>
                                                => (hist[e].p + hist[e].h >= cfg.dr[j][1] /\ hist[e].p + hist[e].h <= cfg.dr[j][2])
 OffZero == (fault = "") => \A e \in 1..Len(hist) : (~hist[e].on => hist[e].p = 0 /\ hist[e].h = 0)
 ASSUME ConversionExact == \A c0 \in Configs : ConvOK(c0)      \* families keep converted bounds integral (else: machinery error)
+\* between two consecutive on-steps outside every profile the virtual output changes by at most the ramp
+RampOutsideProfiles == (fault = "" /\ cfg.ramp >= 0) => \A e \in 2..Len(hist) :
+     (hist[e].on /\ hist[e - 1].on
+        /\ e - OnRunEndingAt(e) + Before(OnRunEndingAt(e)) > Rs(cfg) + 1                                   \* neither step in the start profile
+        /\ \A j \in 0..Rd(cfg) : ~(e + j <= Len(hist) /\ (\A i \in 0..(j - 1) : hist[e + i].on) /\ e + j <= Len(hist) /\ ~hist[e + j].on))
+     => (hist[e].p + hist[e].h - hist[e - 1].p - hist[e - 1].h <= cfg.ramp /\ hist[e - 1].p + hist[e - 1].h - hist[e].p - hist[e].h <= cfg.ramp)
 HeatWithinShare == (fault = "") => \A e \in 1..Len(hist) : hist[e].h <= hist[e].p
 
 Emit == /\ (Complete \/ fault # "") => PrintT(<<"BEH", ToJson([cid |-> cfg.id, fault |-> fault, at |-> Len(hist), val |-> val, steps |-> hist])>>)
